@@ -299,7 +299,15 @@ func c18Server(r *vf.Run, t *testing.T, id string, rng *rand.Rand) {
 					want = 3
 				}
 				before := e.P.NFrames()
-				e.P.Write(rt.SettingsFrame(bad))
+				frame := []wire.Setting{bad}
+				switch rng.Intn(3) {
+				case 1: // the same parameter again, valid this time: parameters are processed in order, the first is already an error
+					frame = append(frame, wire.Setting{ID: bad.ID, Val: map[uint16]uint32{2: 0, 4: 65535, 5: 16384}[bad.ID]})
+					replay["invalid_then_valid_in_one_frame"] = true
+				case 2: // surrounded by unrelated valid parameters
+					frame = []wire.Setting{{ID: 3, Val: 50}, bad, {ID: 1, Val: 4096}}
+				}
+				e.P.Write(rt.SettingsFrame(frame...))
 				tag := fmt.Sprintf("%s.%d", id, next)
 				e.P.Write(simpleGet(e.P, next, tag))
 				rt.Wait()
@@ -333,7 +341,7 @@ func c18Server(r *vf.Run, t *testing.T, id string, rng *rand.Rand) {
 
 func c18Client(r *vf.Run, t *testing.T, id string, rng *rand.Rand) {
 	nset := 1 + rng.Intn(6)
-	probe := []string{"none", "frame-one-byte-over", "push-promise", "invalid-setting", "concurrency"}[rng.Intn(5)]
+	probe := []string{"none", "frame-one-byte-over", "push-promise", "invalid-setting", "concurrency", "frame-size-lowered-mid-body", "frame-size-lowered-mid-body"}[rng.Intn(7)]
 	var triggers []string
 	var kinds []string
 	replay := map[string]any{"role": "client", "settings_frames": nset, "probe": probe}
@@ -392,8 +400,10 @@ func c18Client(r *vf.Run, t *testing.T, id string, rng *rand.Rand) {
 		if v, ok := e.ClientSettings[2]; !ok || v != 0 {
 			fail("enable-push-not-disabled", fmt.Sprintf("the client's SETTINGS are %v: SETTINGS_ENABLE_PUSH=0 is missing although it tears the connection down on PUSH_PROMISE", e.ClientSettings))
 		}
+		streamedBody := false
 		request := func(hdr, body int) *rt.Call {
 			nreq++
+			streamed := streamedBody
 			tag := fmt.Sprintf("%s.%d", id, nreq)
 			c := e.Do(tag, func(req *fasthttp.Request) {
 				req.SetRequestURI("https://s.example/" + tag)
@@ -405,7 +415,11 @@ func c18Client(r *vf.Run, t *testing.T, id string, rng *rand.Rand) {
 					req.Header.Add(fmt.Sprintf("x-big-%d", i), strings.Repeat("v", n))
 					left -= n + 40
 				}
-				req.SetBody(make([]byte, body))
+				if streamed {
+					req.SetBodyStream(&slowReader{b: make([]byte, body), chunk: 40000}, -1)
+				} else {
+					req.SetBody(make([]byte, body))
+				}
 			})
 			calls = append(calls, c)
 			if hdr > 16000 {
@@ -473,6 +487,38 @@ func c18Client(r *vf.Run, t *testing.T, id string, rng *rand.Rand) {
 					fail("peer-max-concurrent-streams-exceeded", fmt.Sprintf("the server allows %d concurrent streams; the client opened %d at once", lim, open))
 				}
 				answerAll()
+			case "frame-size-lowered-mid-body":
+				// the server allows big frames and a tiny window; an upload gets stuck; the server lowers MAX_FRAME_SIZE,
+				// the client acknowledges; then the window opens: everything after the ACK obeys the new value
+				big := []uint32{32768, 65536, 1 << 20}[rng.Intn(3)]
+				low := []uint32{16384, 16385, 20000}[rng.Intn(3)]
+				e.P.Write(rt.SettingsFrame(wire.Setting{ID: 5, Val: big}, wire.Setting{ID: 4, Val: uint32([]int{0, 1000, 20000}[rng.Intn(3)])}))
+				sent++
+				ps.apply([]wire.Setting{{ID: 5, Val: big}})
+				if int64(big) > maxFrameBinding {
+					maxFrameBinding = int64(big)
+				}
+				rt.Wait()
+				checkQ("after raising MAX_FRAME_SIZE")
+				base := len(e.RequestsSeen())
+				streamedBody = rng.Intn(2) == 0
+				request(10, 150000+rng.Intn(100000))
+				streamedBody = false
+				rt.Wait()
+				e.P.Write(rt.SettingsFrame(wire.Setting{ID: 5, Val: low}))
+				sent++
+				ps.apply([]wire.Setting{{ID: 5, Val: low}})
+				pendingLower = int64(low)
+				rt.Wait()
+				checkQ("after lowering MAX_FRAME_SIZE during a blocked upload")
+				if seen := e.RequestsSeen(); len(seen) > base {
+					sid := seen[len(seen)-1].Stream
+					e.P.Write(append(rt.WindowUpdate(sid, 1<<20), rt.WindowUpdate(0, 1<<20)...))
+					rt.Wait()
+					checkQ(fmt.Sprintf("after the window reopened (MAX_FRAME_SIZE %d lowered to %d and acknowledged while the upload was blocked)", big, low))
+					r.Inc("uploads_resumed_after_a_frame_size_decrease", 1)
+				}
+				answerAll()
 			case "frame-one-byte-over":
 				request(10, 0)
 				rt.Wait()
@@ -509,7 +555,15 @@ func c18Client(r *vf.Run, t *testing.T, id string, rng *rand.Rand) {
 				}
 			case "invalid-setting":
 				bad := []wire.Setting{{ID: 2, Val: 2}, {ID: 4, Val: 1 << 31}, {ID: 5, Val: 16383}, {ID: 5, Val: 1 << 24}}[rng.Intn(4)]
-				e.P.Write(rt.SettingsFrame(bad))
+				frame := []wire.Setting{bad}
+				switch rng.Intn(3) {
+				case 1:
+					frame = append(frame, wire.Setting{ID: bad.ID, Val: map[uint16]uint32{2: 0, 4: 65535, 5: 16384}[bad.ID]})
+					replay["invalid_then_valid_in_one_frame"] = true
+				case 2:
+					frame = []wire.Setting{{ID: 3, Val: 50}, bad, {ID: 1, Val: 4096}}
+				}
+				e.P.Write(rt.SettingsFrame(frame...))
 				rt.Wait()
 				before := len(e.RequestsSeen())
 				c := request(10, 0)
